@@ -1,0 +1,54 @@
+//go:build verif
+// +build verif
+
+package slog
+
+import (
+	"github.com/hedzr/is/term/color"
+)
+
+// VerifSnapshotLevels copies the process-wide level tables (which the
+// public API can only add to) and returns a function that puts the
+// copies back. It is compiled only with the build tag 'verif' and is
+// used by the external verification harness to keep generated test
+// cases independent from each other.
+func VerifSnapshotLevels() (restore func()) {
+	all := append([]Level(nil), allLevels...)
+	l2s := make(map[Level]string, len(levelToString))
+	for k, v := range levelToString {
+		l2s[k] = v
+	}
+	s2l := make(map[string]Level, len(stringToLevel))
+	for k, v := range stringToLevel {
+		s2l[k] = v
+	}
+	tags := make(map[int]map[Level]string, len(shortTagMap))
+	for n, m := range shortTagMap {
+		mm := make(map[Level]string, len(m))
+		for k, v := range m {
+			mm[k] = v
+		}
+		tags[n] = mm
+	}
+	as := make(map[Level]Level, len(mLevelIsEnabledAs))
+	for k, v := range mLevelIsEnabledAs {
+		as[k] = v
+	}
+	ed := make(map[Level]bool, len(mLevelUseErrorDevice))
+	for k, v := range mLevelUseErrorDevice {
+		ed[k] = v
+	}
+	clrs := make(map[Level][]color.Color, len(mLevelColors))
+	for k, v := range mLevelColors {
+		clrs[k] = append([]color.Color(nil), v...)
+	}
+	return func() {
+		allLevels = all
+		levelToString = l2s
+		stringToLevel = s2l
+		shortTagMap = tags
+		mLevelIsEnabledAs = as
+		mLevelUseErrorDevice = ed
+		mLevelColors = clrs
+	}
+}
